@@ -26,13 +26,13 @@ spec("wf_rule(rule)", """
 """)
 
 contract(f"{R}::ip_matches_masked_range",
-         props=["C07"],
+         props=["C07", "C06"],
          ensures=[("bitwise_spec", "result == masked_eq(ip_to_check, base_ip, wildcard_mask)")],
          reveal=["masked_eq"],
          modifies=[])
 
 contract(f"{R}::ACLRule.permit_frame_check",
-         props=["C07"],
+         props=["C07", "C06"],
          requires=["wf_rule(self)"],
          ensures=[("matches_spec", "result[1] == matches(self, frame)"),
                   ("permitted_spec", "result[0] == (matches(self, frame) and self.action == ACLAction.PERMIT)")],
@@ -52,7 +52,7 @@ spec("permits(acl, f)", """
 """)
 
 contract(f"{R}::AccessControlList.is_permitted",
-         props=["C07"],
+         props=["C07", "C06"],
          requires=["wf_acl(self)",
                    # distinct positions hold distinct rule objects, none of them the implicit rule (established by
                    # add_rule, which always allocates a fresh ACLRule, and by __init__)
